@@ -1,6 +1,6 @@
 //! Stand-in for ctrlc: registers the handler with the simulated process; a simulated
-//! SIGINT/SIGTERM runs it from scheduler context (the real crate runs it on its own thread,
-//! i.e. concurrently with everything else).
+//! SIGINT/SIGTERM runs it in a task of that process created for the occasion (the real crate
+//! runs it on a thread of its own, concurrently with everything else).
 
 use std::rc::Rc;
 
